@@ -41,6 +41,16 @@ CHECKS = {
              'pre-authenticated receiver and through real server/client handshakes; deliveries must equal the sent '
              'sequence.',
         note='in-memory transport instead of a socket; peer-credential lookup disabled; ' + TRUST),
+    'C05': dict(
+        category='exploration', design_ref='DESIGN.md section 3 C05',
+        technique='mutation/grammar-directed fuzzing (Hypothesis) with an interpreter-step budget oracle (sys.settrace)',
+        text='Truncations (exhaustive per message), byte mutations, every length field rewritten to lying values '
+             '(located by the reference encoder offset map), a list of hostile signatures in header and variants, and '
+             'raw bytes are fed to parseMessage, unmarshal and dataReceived; each call must return or raise within a '
+             'step budget linear in the input length and may not build an oversized result. Finds loops and unbounded '
+             'growth; says nothing about constant factors.',
+        note='budget = 20000+20000*n traced lines inside txdbus (generous: measured worst legal-ish input 12.5k/byte); '
+             + TRUST),
     'C18': dict(
         category='exploration', design_ref='DESIGN.md section 3 C18',
         technique='bounded-exhaustive string enumeration + Hypothesis, differential against hand-written grammar recognisers',
@@ -57,6 +67,14 @@ CHECKS = {
              'generated nested Python values (homogeneous, unrelated-class and subclass-instance containers) to give '
              'one complete type that encodes and decodes back to an equal value.',
         note='value generator restricted to the claim of the property (no same-class/different-type siblings); ' + TRUST),
+    'C20': dict(
+        category='exploration', design_ref='DESIGN.md section 3 C20',
+        technique='schedule generation: Hypothesis-drawn and exhaustively enumerated fd-arrival/read interleavings',
+        text='Sender: generated calls with 0-3 descriptors through callRemote on a UNIX transport double; descriptors '
+             'must precede the bytes in argument order and the header must declare their count. Receiver: generated '
+             'streams with every stream-consistent placement of descriptor arrivals (exhaustive for <=3 messages x <=2 '
+             'descriptors, random with byte-level splitting beyond); each h argument must resolve to its own token.',
+        note='the kernel is represented by the stream model in the property statement (transport double); ' + TRUST),
 }
 
 NOT_YET = 'check under construction in this session (see DESIGN.md); will be claimed when its harness is committed'
